@@ -377,8 +377,7 @@ class FeedChecker(ProgMixin):
             self.index = i
             if os.path.exists(path):
                 for piece in self.extract(path, partial):
-                    if (len(piece) == self.piece_length) or (i + 1 == len(
-                            self.paths)):
+                    if len(piece) == self.piece_length:
                         yield piece
                         partial = bytearray()
                     else:
@@ -393,6 +392,8 @@ class FeedChecker(ProgMixin):
                     else:
                         partial = pad
             self.progbar.close_out()
+        if partial:
+            yield partial
 
     def extract(self, path: str, partial: bytearray) -> bytearray:
         """
